@@ -8,7 +8,7 @@ try:
 except ImportError:
     AsyncFunctionDef = FunctionDef
 
-from .util import (Location, np, insert_loc, cached_property,
+from .util import (Location, np, insert_loc, cached_property, Partial,
                    get_indexes_for_target, context_property)
 from .compat import PY2, itervalues, builtins, iteritems, iterkeys
 from .name import (ArgumentName, MultiName, UndefinedName, ImportedName,
@@ -345,6 +345,17 @@ class SourceScope(Scope):
     def assigns(self, ctx):
         # type: (EvalCtx) -> dict[Object, dict[str, MultiValue]]
         result = {}  # type: dict[Object, dict[str, MultiValue]]
+        # the receivers are evaluated with static attribute tables: the full ones
+        # include these very assignments
+        Partial.static += 1
+        try:
+            self._collect_assigns(ctx, result)
+        finally:
+            Partial.static -= 1
+        return result
+
+    def _collect_assigns(self, ctx, result):
+        # type: (EvalCtx, dict[Object, dict[str, MultiValue]]) -> None
         for _scope, attr, value in self._attr_assigns:
             # logging.getLogger('supp.attr').error('Get attr for %s %s',
             #                                      scope, dump(attr, annotate_fields=False))
@@ -357,8 +368,6 @@ class SourceScope(Scope):
                         attrs[attr.attr].add(assigned_attr)
                     except KeyError:
                         attrs[attr.attr] = MultiValue(assigned_attr)
-
-        return result
 
     def resolve_star_imports(self, project):
         # type: (Project) -> None
